@@ -4,6 +4,7 @@ package bindtodevice
 
 //verif:pkg internal/bindtodevice
 //verif:stub github.com/AdguardTeam/AdGuardDNS/internal/bindtodevice.readPacketSession verifReadPacketSession
+//verif:stub (*net.UDPConn).WriteMsgUDP verifWriteMsgUDP
 
 import (
 	"context"
@@ -16,8 +17,17 @@ import (
 )
 
 type verifBTDEnv struct {
-	l *interfaceListener
-	c *chanPacketConn
+	l        *interfaceListener
+	c        *chanPacketConn
+	sessions []*packetSession
+}
+
+type verifObs struct{}
+
+func (verifObs) Observe(float64) {}
+
+func verifWriteMsgUDP(c *net.UDPConn, b, oob []byte, addr *net.UDPAddr) (int, int, error) {
+	return len(b), len(oob), nil
 }
 
 // the datagram the ghost socket delivers next
@@ -47,6 +57,7 @@ func verifNewBTDEnv() *verifBTDEnv {
 		bodyPool:      syncutil.NewSlicePool[byte](512),
 		oobPool:       syncutil.NewSlicePool[byte](netext.IPDstOOBSize),
 		writeRequests: writeRequests,
+		writeDurationHist: verifObs{},
 		done:          make(chan unit),
 		ifaceName:     "lo",
 		port:          53,
@@ -66,5 +77,13 @@ func (e *verifBTDEnv) consume(buf []byte) (n, port int, err error) {
 	if err != nil {
 		return 0, 0, err
 	}
+	e.sessions = append(e.sessions, sess.(*packetSession))
 	return n, sess.RemoteAddr().(*net.UDPAddr).Port, nil
+}
+
+// respond answers the i-th consumed session through the listener's write path.
+func (e *verifBTDEnv) respond(i int) error {
+	resp := &packetConnWriteResp{}
+	e.l.writeToUDPConn(nil, &packetConnWriteReq{session: e.sessions[i], body: []byte{0, 0, 0x80, 0, 0, 0, 0, 0, 0, 0, 0, 0}}, resp)
+	return resp.err
 }
